@@ -21,6 +21,11 @@ within the matrix class (definite <-> indefinite, differently conditioned, sign-
 several reset(); seed; sensitivity() passes per response with different seed SUPPORTS (one piece / all but that piece /
 that piece again without a new response / column subsets / partial / single entry / explicit zeros / none), every pass
 compared with a fresh network.  Random histories: the same ingredients, final cycle with or without a new response.
+Regimes also change the SPARSITY PATTERN at constant shape (decoupled dofs appear / disappear / move: LDAWrapper's partition),
+the VALUE KIND (real <-> complex matrices and right-hand sides within one symmetry class) and the MAGNITUDE (1e-5 .. 1e5) for
+LinSolve (LU, Cholesky, QR, sparse LU, CG), SystemOfEquations, StaticCondensation and EigenSolve; the detections LinSolve and
+LDAWrapper make at every response (iscomplex, partition) are modelled in Hist.v (LinSolveDetectModel) and tied by a tag
+correspondence (tag_det_trace, get_diagonal_indices as written).
 Also "reset leaves nothing behind" and "sensitivity without seed changes nothing".  Documented memories (Scaling, damped
 AggScaling) serve as positive controls: the harness must SEE their history dependence.
 """
@@ -64,6 +69,11 @@ Definition chol_case (As : list (list Z)) (obs : list (list Z)) : bool := Zll_eq
    sensitivity.  observed after every pass: which A_k - lambda_i B_k the adjoint solver of each mode holds ([k; i]) *)
 Definition eig_case (n : nat) (ops : list (option (list bool))) (obs : list (list (option (list Z)))) : bool :=
   list_eqb (list_eqb (option_eqb Zl_eqb)) (tag_adj_trace n ops) obs.
+(* ONE LinSolve module (LDAWrapper inside) fed A_1, A_2, ... of one class; a matrix is kind :: n :: entries of A != 0;
+   observed after every response + sensitivity: [1 iff the matrix sensitivity is complex-typed; decoupled dofs held ...] *)
+Definition det_case (As : list (list Z)) (obs : list (list Z)) : bool := Zll_eqb (tag_det_trace As) obs.
+(* ONE LDAWrapper object: update(A_k); observed: the decoupled dofs it holds *)
+Definition part_case (As : list (list Z)) (obs : list (list Z)) : bool := Zll_eqb (map (@tl Z) (tag_det_trace As)) obs.
 '''
 
 
@@ -343,7 +353,22 @@ def book_jobs(ctx, g):
             jobs.append(dict(kind='eig', generalized=gen, ops=[None, only, None, allbut, only, [True] * 3]))
             jobs.append(dict(kind='eig', generalized=gen, ops=[None, [True] * 3, None, [False] * 3, only, None, None, allbut]))
             jobs.append(dict(kind='eig', generalized=gen, ops=[None, only, allbut, None, allbut, allbut, only]))
+    # detections of LinSolve / LDAWrapper: value kind (real / complex) and decoupled dofs change at constant shape and class
+    R, X = False, True
+    for specs in ([(R, [0]), (R, [])], [(R, []), (R, [0])], [(R, [0]), (R, [4])], [(R, [0, 4]), (R, [4]), (R, []), (R, [0])],
+                  [(R, []), (X, [])], [(X, []), (R, [])], [(R, [0]), (X, [])], [(X, [1]), (R, [1, 2]), (X, [])],
+                  [(R, [0]), (X, [0]), (R, [])], [(X, [0, 1, 2]), (R, []), (X, [3])]):
+        for sparse in (False, True):
+            for via in ('linsolve', 'lda'):
+                jobs.append(dict(kind='det', specs=[[int(c), list(d)] for c, d in specs], n=5, via=via, sparse=sparse))
     nr = 40 if ctx.quick() else 400
+    for _ in range(nr):
+        n = int(g.integers(3, 7))
+        specs = []
+        for _ in range(int(g.integers(2, 7))):
+            dec = [i for i in range(n) if g.random() < 0.3]
+            specs.append([int(g.integers(0, 2)), dec[:n - 2]])
+        jobs.append(dict(kind='det', specs=specs, n=n, via=['linsolve', 'lda'][int(g.integers(0, 2))], sparse=bool(g.integers(0, 2))))
     for _ in range(nr):
         jobs.append(dict(kind='chol', pds=[int(g.integers(0, 2)) for _ in range(int(g.integers(2, 9)))],
                          cplx=bool(g.integers(0, 2)), via=['solver', 'linsolve'][int(g.integers(0, 2))]))
@@ -367,6 +392,12 @@ def run_book(pym, job):
         As = [[k + 1, int(pd)] for k, pd in enumerate(job['pds'])]
         obs = [[t] for pair in tags for t in pair]
         return f'chol_case {zl(As)}%Z {zl(obs)}%Z', tags, valid
+    if job['kind'] == 'det':
+        As, obs = histzoo.det_bookkeeping(pym, g, [(bool(c), list(d)) for c, d in job['specs']], job['n'], job['via'], job['sparse'])
+        enc = [[int(np.iscomplexobj(A)), job['n']] + [int(v) for v in (A != 0).ravel()] for A in As]
+        # independent formula for what a module that has seen only A_k holds
+        want = [([int(np.iscomplexobj(A))] if job['via'] == 'linsolve' else []) + histzoo.expected_partition(A) for A in As]
+        return f"{'det_case' if job['via'] == 'linsolve' else 'part_case'} {zl(enc)}%Z {zl(obs)}%Z", dict(obs=obs, want=want), 0
     obs = histzoo.eig_bookkeeping(pym, g, job['ops'], job['generalized'])
     ops = '[' + '; '.join('None' if o is None else 'Some [' + '; '.join('true' if b else 'false' for b in o) + ']'
                           for o in job['ops']) + ']'
@@ -393,11 +424,24 @@ def run(ctx):
                 'arbitrary seeded-mode subsets (deliberate first: one mode at an earlier design, the others first after the new '
                 'response, that mode again); observed: the tag of the matrix every answer solves / every adjoint solver holds; '
                 'non-trivial when both kinds of matrices occur / when there are >= 2 responses and a proper subset pass. '
+                'detections of LinSolve/LDAWrapper: sequences of 2-6 non-symmetric matrices of one shape, each real or complex and '
+                'with a chosen set of decoupled dofs (deliberate first: decoupled -> coupled, coupled -> decoupled, moved, real -> '
+                'complex, complex -> real, combined; dense/sparse; through LinSolve and through an LDAWrapper object); observed: '
+                'whether the matrix sensitivity is complex-typed and the decoupled dofs the wrapper holds; non-trivial when kind or '
+                'partition changes within the sequence. '
                 'purity validation: stress histories (deliberate plan: 3 designs with a regime sequence, 12 passes with different '
-                'seed supports, every pass vs fresh network) and random histories on networks with library modules.')
-    ctx.assumptions += ['the matrix CLASS (dense/sparse, symmetric/Hermitian or not, real/complex, size) and the dtype of a signal '
-                        'are constant within a history (LinearSolver.update: "new matrix of the same structure"); '
-                        'LinSolve/EigenSolve cache class flags and the solver kind from the first call',
+                'seed supports, every pass vs fresh network) and random histories on networks with library modules; the regimes '
+                'include sparsity-pattern changes at constant shape, value-kind changes and magnitude changes.')
+    ctx.assumptions += ['the matrix CLASS (dense/sparse storage, symmetric or not, Hermitian or not, size) is constant within a '
+                        'history (LinearSolver.update: "new matrix of the same structure"; LinSolve/LDAWrapper/EigenSolve keep the '
+                        'symmetric / Hermitian flags and the solver chosen from them from the first call: '
+                        'C03_linsolve_class_change_refuted).  NOT part of the class, and changed within the histories: the VALUE '
+                        'KIND (real <-> complex matrices and right-hand sides: non-symmetric <-> complex general; symmetric <-> '
+                        'complex symmetric with a solver that does not depend on the Hermitian flag (LU, sparse LU); symmetric <-> '
+                        'complex Hermitian without LDAWrapper, whose `symmetric` flag would change), the SPARSITY PATTERN at '
+                        'constant shape (decoupled dofs appear / disappear / move) and the MAGNITUDE (matrix and right-hand side '
+                        'scaled by 1e-5 .. 1e5, compared relative to the result; CG with initial guess: matrix and right-hand side '
+                        'scaled alike).  In the integer-exact core the dtype of a signal is constant',
                         'inner solvers are exact (an exact solve of a regular matrix does not depend on its initial guess): '
                         'hypothesis solve_ignores_guess, validated by the history-vs-fresh comparison at 1e-9 (CG with tol=1e-12: 1e-8; '
                         'the FE eigenproblem whose adjoint systems are singular by construction, K02: 1e-7)',
@@ -518,8 +562,16 @@ def run(ctx):
         nvalid += valid
         bchecks.append(chk)
         bjobs.append((job, obs))
-        ctx.count('book:' + job['kind'] + (':' + job['via'] if job['kind'] == 'chol' else ':generalized' if job['generalized'] else ':standard'))
-        nontrivial = (len(set(job['pds'])) > 1) if job['kind'] == 'chol' else (sum(o is None for o in job['ops']) > 1 and any(o and not all(o) for o in job['ops'] if o is not None))
+        ctx.count('book:' + job['kind'] + (':' + job['via'] if job['kind'] in ('chol', 'det') else ':generalized' if job['generalized'] else ':standard'))
+        if job['kind'] == 'det':
+            for a, b in zip(job['specs'], job['specs'][1:]):
+                ctx.count('det-transition:' + ('real' if not a[0] else 'complex') + '->' + ('real' if not b[0] else 'complex') + ':' +
+                          ('same decoupled dofs' if a[1] == b[1] else 'dofs become coupled' if set(b[1]) < set(a[1]) else
+                           'dofs become decoupled' if set(a[1]) < set(b[1]) else 'decoupled dofs move'))
+            # the same step on a module / wrapper that has seen only this matrix must observe the same (purity of the observation)
+            nontrivial = len({(c, tuple(d)) for c, d in job['specs']}) > 1
+        else:
+            nontrivial = (len(set(job['pds'])) > 1) if job['kind'] == 'chol' else (sum(o is None for o in job['ops']) > 1 and any(o and not all(o) for o in job['ops'] if o is not None))
         ctx.case(json.dumps(job, sort_keys=True), nontrivial, sample=dict(case='book:' + job['kind'], coq=chk[:300]))
     ctx.oracle_validation['cholesky factorisation succeeds iff the matrix is positive definite (tag instance of `chol`)'] = nvalid
     if bchecks:
@@ -530,11 +582,14 @@ def run(ctx):
                           theorem='cases_book')
         for idx in failing[:20]:
             job, obs = bjobs[idx]
-            site = 'SolverDenseCholesky.update/solve' if job['kind'] == 'chol' else 'EigenSolve._sparse_eigvec_sens'
-            # does the observation itself show a factorisation of an EARLIER (or of no) matrix IN USE?  then the
-            # implementation violates the property on this input, whatever the model says
+            site = {'chol': 'SolverDenseCholesky.update/solve', 'eig': 'EigenSolve._sparse_eigvec_sens',
+                    'det': 'LinSolve._response/LDAWrapper.update'}[job['kind']]
+            # does the observation itself show a factorisation / detection of an EARLIER (or of no) matrix IN USE?  then
+            # the implementation violates the property on this input, whatever the model says
             if job['kind'] == 'chol':
                 stale = any(t != k + 1 for k, pair in enumerate(obs) for t in pair)
+            elif job['kind'] == 'det':
+                stale = obs['obs'] != obs['want']
             else:
                 stale, k, row = False, 0, 0
                 for o in job['ops']:
@@ -543,14 +598,19 @@ def run(ctx):
                     else:
                         stale = stale or any(sd and obs[row][i] != [k, i] for i, sd in enumerate(o))
                         row += 1
-            ctx.violation('impl-violates' if stale else 'correspondence', site,
-                          'the factorisation in use is the one of the current matrix' if stale else 'model == implementation',
+            pred = {'chol': 'the factorisation in use is the one of the current matrix',
+                    'eig': 'the factorisation in use is the one of the current matrix',
+                    'det': 'the value kind and the decoupled-dof partition in use are those of the current matrix'}[job['kind']]
+            ctx.violation('impl-violates' if stale else 'correspondence', site, pred if stale else 'model == implementation',
                           'library module memory', dict(book=job),
-                          expected='Model/Hist.v: ' + ('tag_answers' if job['kind'] == 'chol' else 'tag_adj_trace'), got=obs,
+                          expected='Model/Hist.v: ' + {'chol': 'tag_answers', 'eig': 'tag_adj_trace', 'det': 'tag_det_trace'}[job['kind']] +
+                                   (f" = {obs['want']}" if job['kind'] == 'det' else ''),
+                          got=obs['obs'] if job['kind'] == 'det' else obs,
                           note='Coq model of the memory (Hist.v) and implementation differ' +
-                               ('; an answer / a visited mode uses the factorisation of an earlier matrix' if stale else ''),
-                          theorem='C03_cholesky_solver_answers_for_latest_matrix' if job['kind'] == 'chol'
-                          else 'C03_mem_invariant_eigensolve_adjoint_solvers')
+                               ('; an answer / a visited mode / a detection belongs to an earlier matrix' if stale else ''),
+                          theorem={'chol': 'C03_cholesky_solver_answers_for_latest_matrix',
+                                   'eig': 'C03_mem_invariant_eigensolve_adjoint_solvers',
+                                   'det': 'C03_linsolve_detections_follow_latest_matrix'}[job['kind']])
 
     phases['memory bookkeeping (python + coq)'] = round(_time.time() - _t, 1)
     _t = _time.time()
